@@ -492,17 +492,11 @@ def comments_roundtrip(vc):
         vc.prove("same-components", [(dict(c.description), c.blob) for c in out.value.components] == [({0xC3: b"\x02"}, b"payload-bytes")])
 
 
-# the public writer / reader hand over the caller's key and flags (contracts of C03 / C05, obligations here too).
-# C05 imports this module, so the registration is repeated from C05's end when C05 is the module being loaded first.
-def _share():
-    from pyvc.harness import reuse, PROOFS
-    import importlib
-    importlib.import_module("contracts.C03")
-    importlib.import_module("contracts.C05")
-    for src, new in (("C03/write_file.passes-key-and-offset", "C01/write_file.passes-key-and-offset"),
-                     ("C05/read_file.passes-flags-and-key", "C01/read_file.passes-flags-and-key")):
-        if src in PROOFS and new not in PROOFS:
-            reuse(src, new)
-
-
-_share()
+# the public writer / reader hand over the caller's key and flags (contracts of C03 / C05, obligations here too)
+from pyvc.harness import reuse as _reuse
+_reuse("C03/write_file.passes-key-and-offset", "C01/write_file.passes-key-and-offset")
+_reuse("C05/read_file.passes-flags-and-key", "C01/read_file.passes-flags-and-key")
+# write-then-read = (writer's output is the layout, C03) + (reader of a layout returns the file, above): the writer half is
+# discharged under this property too
+_reuse("C03/dir_to_binary", "C01/writer.directory=layout")
+_reuse("C03/to_binary", "C01/writer.to_binary=layout")
